@@ -276,7 +276,7 @@ PROPS["C02"] = {
 PROPS["C03"] = {
     "lean": ["SioVerif.Props.C03"],
     "components": ["timed:TestAcks"],
-    "facts": [],
+    "facts": ["sioServerAckIdFromNamespace"],
     "rule": "virtual time. Unit: the real ack handler with a timeout, one reply at delay {0, T-1ns, T, T+1ns, 2T, never} (with and without a duplicate call). System: real server and "
             "client stacks on the in-memory network, 1..50 acks outstanding at once, reply delays on both sides of the timeout, 0..3 attachments, with and without timeout, "
             "the replying handler calling its ack function once or twice, both directions, polling / websocket / upgrade, emitter cut off in mid-flight; the emitter not "
